@@ -1,5 +1,6 @@
 From Coq Require Import ZArith NArith List Bool.
 From CL Require Import Base.Sx Base.Res Base.Str Model.Difflib Model.CheckProps Model.CheckPropsSpec.
+From CL Require Model.Compare Model.CompareText Model.Lint Model.LintProps Model.CheckPlain.
 Import ListNotations.
 Open Scope Z_scope.
 
@@ -50,6 +51,17 @@ Definition in_of (x : sx) : check_in :=
        (to_str (nth_sx 3 x)) (to_str (nth_sx 4 x)) (to_str (nth_sx 5 x)) (to_str (nth_sx 6 x))
        (to_option to_str (nth_sx 7 x)).
 
+(* the checker behind the interfaces of the end-to-end models (Model/CheckPlain.v) *)
+Definition lint_finding_sx (f : @Lint.finding str str) : sx :=
+  L [A (Lint.f_lineno f); A (Lint.f_column f);
+     A (match Lint.f_level f with Lint.LError => 1 | Lint.LWarning => 0 end);
+     match Lint.f_message f with
+     | Lint.MDuplicate k => L [A 0; of_str k]
+     | Lint.MChanged k => L [A 1; of_str k]
+     | Lint.MJunk _ _ _ => L [A 2]
+     | Lint.MCheck m => L [A 3; of_str m]
+     end].
+
 Definition dispatch (f : Z) (x : sx) : sx :=
   match f with
   | 0 => (* check [ref comment?; ref key; ref val; l10n key; l10n all; l10n val; l10n raw; locale?] *)
@@ -69,6 +81,19 @@ Definition dispatch (f : Z) (x : sx) : sx :=
       of_result (of_list finding_sx)
                 (compare_specs (to_list (to_option to_str) (nth_sx 0 x))
                                (to_list (to_option to_str) (nth_sx 1 x)))
+  | 6 => (* compare_properties with props_chk [locale?; ref text; l10n text] -> summary *)
+      let loc := to_option to_str (nth_sx 0 x) in
+      let tR := to_str (nth_sx 1 x) in
+      let tL := to_str (nth_sx 2 x) in
+      of_result (fun r => of_list of_nat (Compare.summary (fun _ => Compare.VError) r))
+                (CompareText.compare_properties 0 (fun _ => Compare.VError)
+                   (CheckPlain.props_chk loc tR tL) false tR tL)
+  | 7 => (* lint_properties with props_lint_chk [locale?; text; ref text?] -> findings *)
+      let loc := to_option to_str (nth_sx 0 x) in
+      let t := to_str (nth_sx 1 x) in
+      of_result (of_list lint_finding_sx)
+                (@LintProps.lint_properties str 0 (Some (CheckPlain.props_lint_chk loc t)) t
+                   (to_option to_str (nth_sx 2 x)))
   | _ => sx_err
   end.
 
